@@ -1,6 +1,6 @@
 #!/usr/bin/env python3
 """Write MANIFEST.json from the table below (kept in one place so it stays valid)."""
-import json, os
+import json, os, subprocess
 ROOT = os.path.dirname(os.path.dirname(os.path.abspath(__file__)))
 
 BASE = ("cd /repo && /venv/bin/python -m pytest -ra -q -p no:cacheprovider --timeout=900 "
@@ -35,8 +35,8 @@ def main():
             'guard': 'ARCHITEST_PYMEEUS_VERIF',
             'enable': 'no hook is needed: every modelled function is called in-process by harness/*.py; the guard name is reserved',
             'baseline_off_cmd': BASE,
-            'source_commits': [],
-            'add_only': True,
+            'source_commits': subprocess.run(['git', '-C', '/repo', 'log', '--format=%H %s', 'a240762..HEAD'], capture_output=True, text=True).stdout.strip().split('\n'),
+            'add_only': True,  # there are no hook patches; the listed commits are the unguarded fix: repairs
         },
         'engines': [
             {'name': 'lean-model', 'path': 'lean/', 'serves_properties': sorted(CLAIMED),
